@@ -40,11 +40,6 @@ func genStat(t *rapid.T) StatCase {
 			for i := 0; h.ProdU(c.Ring.Q).Cmp(new(big.Int).Lsh(DistSpec{Kind: "gauss", Bound: 6 * c.Dist.Sigma}.absBound(), 12)) < 0 || h.ProdU(c.Ring.Q).Cmp(new(big.Int).Lsh(c.Dist.absBound(), 12)) < 0; i++ {
 				c.Ring.Q = append(c.Ring.Q, h.GenPrimes(t, []int{61}, uint64(2)<<c.Ring.LogN, used, fmt.Sprintf("qx%d", i))[0])
 			}
-			if c.Dist.Bound < 6*c.Dist.Sigma {
-				// below 6 sigma the arbitrary-precision branch is skewed by the listed finding
-				// C17:gauss:bignum:negative-sample-exceeds-bound; moments are only judged where it is invisible
-				c.Dist.Bound = 6 * c.Dist.Sigma
-			}
 		} else if float64(maxU64(c.Ring.Q)) <= 4*c.Dist.absBoundF() {
 			// the sample must be decodable from one limb: make sure one limb exceeds twice the bound
 			if c.Dist.absBoundF() < 0x1p58 {
@@ -78,7 +73,7 @@ func genStat(t *rapid.T) StatCase {
 		c.Samples = 1 << 19 // the far tail (|x| > 3.5 sigma, probability 4.7e-4) must hold >= 100 samples
 	}
 	if c.Dist.bigPath() {
-		c.Samples = 1 << 14
+		c.Samples = 1 << 15
 	}
 	if kind == "ternaryH" {
 		c.Samples = 2048 * c.Ring.N()
@@ -203,14 +198,20 @@ func runStat(c StatCase, rec *h.Rec) error {
 	// accumulators
 	var sum, sum2, sumAbsPos, sumAbsNeg float64
 	var pos, neg, zero float64
-	var pairNeg, pairPos, pairSame, pairOpp float64 // disjoint neighbours (2k, 2k+1), both non-zero
-	var signVar float64                             // ternary: sum over polynomials of (pos-neg)^2 - (pos+neg)
-	var shellPos, shellNeg [5]float64               // gauss: signs per shell of |x|/sigma: [0,1) [1,2) [2,3) [3,3.5) [3.5,inf)
-	idx := make([]float64, N)                       // ternaryH: how often index i is non-zero
-	usum := make([]float64, maxL+1)                 // uniform: per limb sum of x/q
-	usum2 := make([]float64, maxL+1)                // uniform: per limb sum of (x/q - 1/2)^2
-	ucnt := make([]float64, maxL+1)                 // uniform: samples per limb
-	zmax := 0.0                                     // gauss: largest |x|/sigma
+	// disjoint pairs (i, i+lag) for lag 1, 2, 3 and N/2: both non-zero -> sign of the first, product of the signs; ternary
+	// P additionally how often both are non-zero
+	lags := []int{1, 2, 3, N / 2}
+	var pairNeg, pairPos, pairSame, pairOpp, pairAll [4]float64
+	ucorr := make([]float64, maxL+1)  // uniform: per limb sum over disjoint neighbours of (x-mu)(y-mu)
+	ucross := make([]float64, maxL+1) // uniform: sum over indices of (x_limb j - mu_j)(x_limb j+1 - mu_j+1)
+	ucrossN := make([]float64, maxL+1)
+	var signVar float64               // ternary: sum over polynomials of (pos-neg)^2 - (pos+neg)
+	var shellPos, shellNeg [5]float64 // gauss: signs per shell of |x|/sigma: [0,1) [1,2) [2,3) [3,3.5) [3.5,inf)
+	idx := make([]float64, N)         // ternaryH: how often index i is non-zero
+	usum := make([]float64, maxL+1)   // uniform: per limb sum of x/q
+	usum2 := make([]float64, maxL+1)  // uniform: per limb sum of (x/q - 1/2)^2
+	ucnt := make([]float64, maxL+1)   // uniform: samples per limb
+	zmax := 0.0                       // gauss: largest |x|/sigma
 	B := d.absBoundF()
 	sm := h.NewSplitMix(c.Key ^ 0x5bd1e995)
 
@@ -250,6 +251,24 @@ func runStat(c StatCase, rec *h.Rec) error {
 					usum2[j] += (x - 0.5) * (x - 0.5)
 				}
 				ucnt[j] += float64(N)
+			}
+			if c.Mode != "add" {
+				// independence inside a limb (disjoint neighbours) and across limbs (same index)
+				for j := 0; j <= lvl; j++ {
+					q := float64(c.Ring.Q[j])
+					mu := (q - 1) / (2 * q)
+					for i := 0; i+1 < N; i += 2 {
+						ucorr[j] += (float64(out.Coeffs[j][i])/q - mu) * (float64(out.Coeffs[j][i+1])/q - mu)
+					}
+					if j < lvl {
+						q2 := float64(c.Ring.Q[j+1])
+						mu2 := (q2 - 1) / (2 * q2)
+						for i := 0; i < N; i++ {
+							ucross[j] += (float64(out.Coeffs[j][i])/q - mu) * (float64(out.Coeffs[j+1][i])/q2 - mu2)
+						}
+						ucrossN[j] += float64(N)
+					}
+				}
 			}
 			continue
 		}
@@ -339,18 +358,27 @@ func runStat(c StatCase, rec *h.Rec) error {
 		// neighbours are independent: given that both coefficients of a disjoint pair are non-zero, the sign of the first
 		// is a fair coin and so is the product of the two signs
 		var sp float64
-		for i := 0; i+1 < N; i += 2 {
-			a, b := vals[i], vals[i+1]
-			if a != 0 && b != 0 {
-				if a < 0 {
-					pairNeg++
-				} else {
-					pairPos++
+		for li, lag := range lags {
+			if li > 0 && (lag <= lags[li-1] || lag < 1) {
+				continue // N/2 coincides with a smaller lag for tiny N
+			}
+			for i := 0; i+lag < N; i++ {
+				if (i/lag)%2 != 0 {
+					continue
 				}
-				if (a < 0) == (b < 0) {
-					pairSame++
-				} else {
-					pairOpp++
+				a, b := vals[i], vals[i+lag]
+				pairAll[li]++
+				if a != 0 && b != 0 {
+					if a < 0 {
+						pairNeg[li]++
+					} else {
+						pairPos[li]++
+					}
+					if (a < 0) == (b < 0) {
+						pairSame[li]++
+					} else {
+						pairOpp[li]++
+					}
 				}
 			}
 		}
@@ -377,8 +405,23 @@ func runStat(c StatCase, rec *h.Rec) error {
 		return h.Failf(key, "%s", msg)
 	}
 
+	lagNames := []string{"1", "2", "3", "N/2"}
 	switch d.Kind {
 	case "uniform":
+		for j := 0; j <= maxL; j++ {
+			q := float64(c.Ring.Q[j])
+			// E[(x-mu)(y-mu)] = 0 for independent x, y; each term is bounded by 1/4 and has variance <= 1/144 + O(1/q)
+			if np := ucnt[j] / 2; np >= 1024 && c.Mode != "add" {
+				if t := bernstein(np, 1.0/144+1/q, 0.25); math.Abs(ucorr[j]) > t {
+					return fail("limb-neighbour-correlation", "limb %d (q=%d): covariance of disjoint neighbours is %.6f, want 0 +- %.6f", j, c.Ring.Q[j], ucorr[j]/np, t/np)
+				}
+			}
+			if np := ucrossN[j]; np >= 1024 {
+				if t := bernstein(np, 1.0/144+1/q, 0.25); math.Abs(ucross[j]) > t {
+					return fail("cross-limb-correlation", "limbs %d and %d: covariance of the coefficients of equal index is %.6f, want 0 +- %.6f", j, j+1, ucross[j]/np, t/np)
+				}
+			}
+		}
 		for j := 0; j <= maxL; j++ {
 			q := float64(c.Ring.Q[j])
 			nj := ucnt[j]
@@ -427,7 +470,7 @@ func runStat(c StatCase, rec *h.Rec) error {
 				return fail("sign-balance-by-magnitude", "among the %d samples with |x|/sigma in shell %d of [0,1) [1,2) [2,3) [3,3.5) [3.5,inf): %d positive, %d negative (allowed difference %.0f)", int(m), sh, int(shellPos[sh]), int(shellNeg[sh]), math.Sqrt(72*m))
 			}
 		}
-		if err := pairChecks(fail, "", pairNeg, pairPos, pairSame, pairOpp); err != nil {
+		if err := pairChecks(fail, "", lagNames, pairNeg, pairPos, pairSame, pairOpp); err != nil {
 			return err
 		}
 		rec.Note("std/sigma", math.Sqrt(sum2/n))
@@ -445,8 +488,20 @@ func runStat(c StatCase, rec *h.Rec) error {
 		if err := signChecks(fail, n, pos, neg, sumAbsPos, sumAbsNeg, 1, 1); err != nil {
 			return err
 		}
-		if err := pairChecks(fail, pclass, pairNeg, pairPos, pairSame, pairOpp); err != nil {
+		if err := pairChecks(fail, pclass, lagNames, pairNeg, pairPos, pairSame, pairOpp); err != nil {
 			return err
+		}
+		// supports of the two members of a pair are independent: both are non-zero with probability P^2
+		for li, name := range lagNames {
+			both := pairNeg[li] + pairPos[li]
+			if m := pairAll[li]; m >= 1024 {
+				p2 := d.P * d.P
+				if t := bernstein(m, p2*(1-p2), 1) + 1; math.Abs(both-m*p2) > t {
+					if err := fail("lag"+name+"-support-correlation", "of %d disjoint pairs (i, i+%s) both coefficients are non-zero in %d, want P^2 = %.5f of them, +- %.0f", int(m), name, int(both), p2, t); err != nil {
+						return err
+					}
+				}
+			}
 		}
 		// the signs inside one polynomial are independent: E[(pos-neg)^2 | support] = pos+neg
 		if t := bernstein(float64(polys), 2*float64(N*N), float64(N*N)); math.Abs(signVar) > t {
@@ -459,7 +514,7 @@ func runStat(c StatCase, rec *h.Rec) error {
 		if err := signChecks(fail, n, pos, neg, sumAbsPos, sumAbsNeg, 1, 1); err != nil {
 			return err
 		}
-		if err := pairChecks(fail, "", pairNeg, pairPos, pairSame, pairOpp); err != nil {
+		if err := pairChecks(fail, "", lagNames, pairNeg, pairPos, pairSame, pairOpp); err != nil {
 			return err
 		}
 		// uniform over the ternary vectors of weight H: the H signs of one polynomial are independent fair coins
@@ -489,15 +544,24 @@ func runStat(c StatCase, rec *h.Rec) error {
 }
 
 // pairChecks: independence of neighbouring coefficients (disjoint pairs), fair-coin Hoeffding bounds.
-func pairChecks(fail func(string, string, ...any) error, class string, pairNeg, pairPos, pairSame, pairOpp float64) error {
-	if m := pairNeg + pairPos; m >= 64 {
-		if math.Abs(pairNeg-pairPos) > math.Sqrt(72*m) {
-			if err := fail("neighbour-dependence"+class, "among %d disjoint pairs of non-zero neighbours the first is negative %d times and positive %d times (allowed difference %.0f)", int(m), int(pairNeg), int(pairPos), math.Sqrt(72*m)); err != nil {
-				return err
-			}
+func pairChecks(fail func(string, string, ...any) error, class string, lagNames []string, pairNegs, pairPoss, pairSames, pairOpps [4]float64) error {
+	for li, name := range lagNames {
+		pairNeg, pairPos, pairSame, pairOpp := pairNegs[li], pairPoss[li], pairSames[li], pairOpps[li]
+		dep, cor, cl := "neighbour-dependence", "neighbour-sign-correlation", class
+		if li > 0 {
+			dep, cor, cl = "lag"+name+"-dependence", "lag"+name+"-sign-correlation", ""
 		}
-		if math.Abs(pairSame-pairOpp) > math.Sqrt(72*m) {
-			return fail("neighbour-sign-correlation", "among %d disjoint pairs of non-zero neighbours %d have equal and %d opposite signs (allowed difference %.0f)", int(m), int(pairSame), int(pairOpp), math.Sqrt(72*m))
+		if m := pairNeg + pairPos; m >= 64 {
+			if math.Abs(pairNeg-pairPos) > math.Sqrt(72*m) {
+				if err := fail(dep+cl, "among %d disjoint pairs (i, i+%s) of non-zero coefficients the first is negative %d times and positive %d times (allowed difference %.0f)", int(m), name, int(pairNeg), int(pairPos), math.Sqrt(72*m)); err != nil {
+					return err
+				}
+			}
+			if math.Abs(pairSame-pairOpp) > math.Sqrt(72*m) {
+				if err := fail(cor, "among %d disjoint pairs (i, i+%s) of non-zero coefficients %d have equal and %d opposite signs (allowed difference %.0f)", int(m), name, int(pairSame), int(pairOpp), math.Sqrt(72*m)); err != nil {
+					return err
+				}
+			}
 		}
 	}
 	return nil
